@@ -51,4 +51,57 @@ def c19(tier, seed, replay_path=None):
                             "the 2^32 domain is sampled (structured lattice + random), not enumerated: TLC cannot enumerate it"]}
 
 
-CHECKS = {"C19": c19}
+def c14(tier, seed, replay_path=None):
+    binary = fc.build()
+    d = c.sub("gen")
+    cfg = os.path.join(d, "wire.cfg")
+    c.write_cfg(cfg, "WSpec", {}, ["RoundTrip", "HostileRejected", "AllocationBounded", "EmitInv"])
+    raw = os.path.join(d, "C14.out")
+    r = c.run_tlc("MC_Wire", cfg, workers=1, out_file=raw)
+    if not r.ok:
+        c.tlc_must_pass(r, "MC_Wire")
+    tbl = os.path.join(d, "C14.table.json")
+    if c.unquote_lines(raw, tbl, limit=1) != 1:
+        raise c.Infra("frame-class table was not emitted")
+    nrows = len(json.load(open(tbl))["rows"])
+    inst = 3 if tier == "quick" else 40
+    nsh = 8 if tier == "quick" else 16
+    procs = []
+    env = c.go_env()
+    for i in range(nsh):
+        sd = c.sub("wire%02d" % i)
+        e = dict(env)
+        e.update({"VERIF_OP": "wire", "VERIF_IN": tbl, "VERIF_OUT": os.path.join(sd, "res"), "VERIF_SEED": str(seed), "VERIF_INSTANCES": str(inst),
+                  "VERIF_SHARD": str(i), "VERIF_NSHARD": str(nsh), "VERIF_RAW": str(1500 if tier == "quick" else 40000)})
+        procs.append((sd, subprocess.Popen([binary, "-test.run", "^TestHarness$", "-test.timeout", "0"], env=e, cwd=sd, stdout=subprocess.PIPE, stderr=subprocess.PIPE, text=True)))
+    aggs = []
+    for sd, pr in procs:
+        so, se = pr.communicate(timeout=3400)
+        if pr.returncode != 0 or not os.path.exists(os.path.join(sd, "res")):
+            # a crash of the decoder outside the watchdog (e.g. fatal error: out of memory) is an observation about the code
+            if "fatal error" in se or "panic:" in se:
+                return {"violations": [("wire decoder crashed the process: %s" % se[-600:], {"family": "wire", "stderr": se[-3000:]})], "known": [], "notes": [],
+                        "level": "exploration", "coverage": {"evaluations": 1, "distinct_nontrivial": 2, "rule": "crash", "samples": ["crash"]}, "assumptions": []}
+            raise c.Infra("wire harness failed: %s" % se[-1500:])
+        res = json.load(open(os.path.join(sd, "res")))
+        aggs.append({"behaviours": 0, "steps": res["steps"], "queries": res["queries"], "mismatches": res.get("mismatches") or [], "samples": res.get("samples") or [],
+                     "crashed": [], "stats": res.get("stats") or {}, "dev_used": {}})
+    agg = merge(aggs)
+    agg["behaviours"] = nrows
+    if agg["stats"].get("roundtrips", 0) < 30 or agg["queries"] < nrows:
+        raise c.Infra("vacuous run: %s" % dict(agg["stats"]))
+    v = simple_verdict("C14", agg, [r], {"rows": nrows, "instances_per_row": inst, "exhaustive": False,
+                       "rule": "every buildable combination of frame classes (header, magic, command, declared length, checksum, payload mutation) x the 18 message kinds from Wire.tla "
+                               "(emitted by TLC), several seeded concrete frames each at three protocol versions; valid frames are round-tripped (decoded value equality incl. times, "
+                               "byte-identical re-encoding); plus raw random bytes and random mutations (bit flips, truncation, splicing) of valid frames under a watchdog with allocation accounting"})
+    v["level"] = "exploration"
+    v["coverage"]["evaluations"] = agg["queries"] + agg["stats"].get("raw", 0)
+    v["coverage"]["distinct_nontrivial"] = nrows
+    v["assumptions"] = ["the specification enumerates CLASSES of frames; arbitrary mutated byte strings are sampled, not enumerated (a coverage-guided fuzzer is outside this technique family)",
+                        "allocation bound checked: a single decode may allocate at most twice the declared payload length plus 8 MB (nothing but 8 MB when the declared length exceeds a limit)"]
+    for f in c.findings_for("C14"):
+        v["known"].append(f["what"])
+    return v
+
+
+CHECKS = {"C19": c19, "C14": c14}
